@@ -12,7 +12,7 @@
    `hist` records the schedule; every complete behaviour is replayed into real forked processes.        *)
 EXTENDS Naturals, Sequences, FiniteSets, TLC, Json
 
-CONSTANTS Procs,        \* 0 = the parent that opened the file, others = forked children
+CONSTANTS Procs,        \* 0 = the process that opened the file, others = forked descendants of any depth (children, grandchildren)
           Scripts,      \* process -> sequence of line numbers it reads
           Kind,         \* "buffered" | "mmap"
           Reopen
